@@ -20,6 +20,7 @@ class Protocol(Component):
         self.__sock = sock
         self.__receive_event_firewall = kwargs.get('receive_event_firewall', None)
         self.__send_event_firewall = kwargs.get('send_event_firewall', None)
+        self.__events = {}  # ids are per connection, so is the table of calls in flight
 
     def add_buffer(self, data=''):
         if data:
